@@ -547,18 +547,16 @@ static int parity_handle_chsize(struct snapraid_split_handle* split, data_off_t 
 
 static int parity_split_is_fixed(struct snapraid_parity_handle* handle, unsigned s)
 {
-	/* next one */
-	++s;
+	/* if any of the next ones is used, this one cannot grow, */
+	/* also if the one just after is empty, because it had no space */
+	/* when the following ones were allocated */
+	for (++s; s < handle->split_mac; ++s) {
+		if (handle->split_map[s].size != 0)
+			return 1;
+	}
 
-	/* the latest one is always growing */
-	if (s >= handle->split_mac)
-		return 0;
-
-	/* if the next it's 0, this one is growing */
-	if (handle->split_map[s].size == 0)
-		return 0;
-
-	return 1;
+	/* the latest one used is always growing */
+	return 0;
 }
 
 int parity_chsize(struct snapraid_parity_handle* handle, struct snapraid_parity* parity, int* is_modified, data_off_t size, uint32_t block_size, int skip_fallocate, int skip_space_holder)
